@@ -9,6 +9,7 @@ configuration x routing outcome.  Expected status, hook trace and (for plain kin
 from a small reference interpreter of the program, not from the framework.
 """
 import io
+import os
 import itertools
 from wsgiref.validate import validator
 from vmon.wsgi import make_environ, call_app, check_framing
@@ -35,6 +36,8 @@ KINDS = ['str', 'bytes', 'str_nonascii', 'empty_str', 'empty_bytes', 'none', 'li
          'resp_returned', 'err_returned', 'resp_raised', 'err_raised', 'resp_gen_body', 'gen_yields_resp', 'gen_yields_err', 'nested3',
          'exception', 'gen_exception_first', 'unsupported_int', 'unsupported_list', 'abort', 'gen_raises_resp', 'dict_false', 'iter_of_lists',
          'iterable_sep_iter', 'iterable_gen_iter', 'iterable_sep_iter_bytes',
+         # a real file of the file system, opened by the handler, its first line already read (a header line, magic bytes)
+         'realfile_positioned',
          # exactly one chunk and nothing after it, not even an empty item
          'iter_single', 'iter_single_bytes', 'iterable_single', 'gen_single',
          # empty items first, then a failure / a raised response: still "before the first body chunk"
@@ -72,6 +75,21 @@ class CountIter:
 
     def close(self):
         self.st['iter_close'] += 1
+
+
+_REAL = {}
+
+
+def _real_file():
+    if 'p' not in _REAL:
+        import atexit
+        import tempfile
+        fd, path = tempfile.mkstemp(prefix='vmon-c03-', dir='/dev/shm' if os.path.isdir('/dev/shm') else None)
+        with os.fdopen(fd, 'wb') as f:
+            f.write(b'#header line of the file, read by the handler\n' + b'file-data-' * 10)
+        atexit.register(lambda: os.path.exists(path) and os.unlink(path))
+        _REAL['p'] = path
+    return _REAL['p']
 
 
 class FileLike:
@@ -158,7 +176,7 @@ def make_world(hooks, errh):
         resp = app.response
         plain = {'str', 'bytes', 'str_nonascii', 'empty_str', 'empty_bytes', 'none', 'list_str', 'list_bytes', 'list_leading_empty', 'list_empty', 'tuple_str',
                  'gen_str', 'gen_bytes', 'gen_leading_empty', 'gen_all_empty', 'iter_custom', 'iter_custom_bytes', 'filelike', 'filelike_noclose', 'dict_false', 'iter_of_lists',
-                 'iter_single', 'iter_single_bytes', 'iterable_single', 'gen_single',
+                 'iter_single', 'iter_single_bytes', 'iterable_single', 'gen_single', 'realfile_positioned',
                  'iterable_sep_iter', 'iterable_gen_iter', 'iterable_sep_iter_bytes'}
         if kind in plain:
             resp.status = S
@@ -218,6 +236,10 @@ def make_world(hooks, errh):
             return FileLike(b'file-data-' * 10, st)
         if kind == 'filelike_noclose':
             return FileLike(b'file-data-' * 10, st, with_close=False)
+        if kind == 'realfile_positioned':
+            f = open(_real_file(), 'rb')
+            f.readline()
+            return f
         if kind == 'dict_false':
             return {}
         if kind == 'iter_of_lists':
@@ -323,6 +345,7 @@ PLAIN_BODY = {
     'list_str': 'abcé'.encode(), 'list_bytes': b'abc', 'list_leading_empty': b'xy', 'list_empty': b'', 'tuple_str': b't1t2',
     'gen_str': 'g1g2é'.encode(), 'gen_bytes': b'g1g2', 'gen_leading_empty': b'xy', 'gen_all_empty': b'', 'iter_custom': b'c1c2',
     'iter_custom_bytes': b'c1c2', 'iterable_sep_iter': b's1s2', 'iterable_gen_iter': b's1s2', 'iterable_sep_iter_bytes': b's1s2', 'filelike': b'file-data-' * 10, 'filelike_noclose': b'file-data-' * 10, 'dict_false': b'',
+    'realfile_positioned': b'file-data-' * 10,
     'iter_single': b'only', 'iter_single_bytes': b'only', 'iterable_single': b'only', 'gen_single': b'only',
 }
 
@@ -734,7 +757,7 @@ def programs(tier):
                     for S in statuses:
                         base = dict(kind=kind, method=method, status=S, hooks=hooks, errh=errh, route=route)
                         yield base
-                        if kind in ('filelike', 'filelike_noclose'):
+                        if kind in ('filelike', 'filelike_noclose', 'realfile_positioned'):
                             yield dict(base, file_wrapper=True)
                         if tier == 'thorough':
                             if kind in PLAIN_BODY:
